@@ -567,8 +567,34 @@ def combine_fcn(ctx):
                     out[i] = tm.add(tm.mul(h[i, 0], tm._l(p[0])), tm.mul(h[i, 1], tm._l(p[1])))
                 return g.copy(), out
 
-            return _Dummy(vm=vm, get_nll=lambda x={}: _S(ctx, N), get_grad=lambda x={}: g.copy(), get_nll_grad=lambda x={}: (_S(ctx, N), g.copy()),
-                          get_nll_grad_hessian=lambda x={}, batch=None: (_S(ctx, N), g.copy(), h.copy()), get_grad_hessp=hp)
+            # the PUBLIC entry points of a part include the part's OWN constraint term K(theta) (an FCN built with gauss_constr); a combined FCN that went through
+            # them instead of the get_* entry points would count the parts' constraints in addition to its own (stub exposes the collaborator's full interface: a
+            # missing method turned the seeded change C07-combine_hessian_double_constraint into a crash instead of a verdict)
+            ktag = "K" + tag
+            declare_uf(ktag, 2)
+            K = uf(ktag, th)
+            kg = np.empty((2,), dtype=object)
+            kh = np.empty((2, 2), dtype=object)
+            for i in range(2):
+                kg[i] = tm.add(g[i], uf(ktag, th, (i,)))
+                for j in range(2):
+                    kh[i, j] = tm.add(h[i, j], uf(ktag, th, (i, j)))
+            NK = tm.add(N, K)
+
+            def pub_hp(x, p, batch=None):
+                out = np.empty((2,), dtype=object)
+                for i in range(2):
+                    out[i] = tm.add(tm.mul(kh[i, 0], tm._l(p[0])), tm.mul(kh[i, 1], tm._l(p[1])))
+                return kg.copy(), out
+
+            class Part(_Dummy):
+                def __call__(self, x={}, *a, **k):
+                    return _S(ctx, NK)
+
+            return Part(vm=vm, get_nll=lambda x={}: _S(ctx, N), get_grad=lambda x={}: g.copy(), get_nll_grad=lambda x={}: (_S(ctx, N), g.copy()),
+                        get_nll_grad_hessian=lambda x={}, batch=None: (_S(ctx, N), g.copy(), h.copy()), get_grad_hessp=hp,
+                        nll_grad=lambda x={}, *a, **k: (_S(ctx, NK), kg.copy()), nll_grad_hessian=lambda x={}, *a, **k: (_S(ctx, NK), kg.copy(), kh.copy()),
+                        grad_hessp=pub_hp, grad=lambda x={}, *a, **k: kg.copy())
 
         parts.append((N, mk()))
     cf = model.CombineFCN(fcns=[p for _, p in parts], gauss_constr={"b": (mu, sg)})
@@ -932,7 +958,41 @@ def combine_point_passed(ctx):
             store(x)
             return vgh()[1]
 
-        return _Dummy(vm=vm, get_nll=get_nll, get_nll_grad=get_nll_grad, get_nll_grad_hessian=get_nll_grad_hessian, get_grad=get_grad)
+        # public entry points of a member (its own constraint term K_i included): present so that a combined FCN that calls them gets a verdict, not an AttributeError
+        declare_uf("K" + tag, 2)
+
+        def kvgh():
+            th = [state[n] for n in names]
+            N, g, h = vgh()
+            g2 = np.empty((2,), dtype=object)
+            h2 = np.empty((2, 2), dtype=object)
+            for i in range(2):
+                g2[i] = tm.add(g[i], uf("K" + tag, th, (i,)))
+                for j in range(2):
+                    h2[i, j] = tm.add(h[i, j], uf("K" + tag, th, (i, j)))
+            return tm.add(N, uf("K" + tag, th)), g2, h2
+
+        def pub_nll_grad(x={}, *a, **k):
+            store(x)
+            N, g, h = kvgh()
+            return _S(ctx, N), g
+
+        def pub_nll_grad_hessian(x={}, *a, **k):
+            store(x)
+            N, g, h = kvgh()
+            return _S(ctx, N), g, h
+
+        def pub_grad(x={}, *a, **k):
+            store(x)
+            return kvgh()[1]
+
+        class Member(_Dummy):
+            def __call__(self, x={}, *a, **k):
+                store(x)
+                return _S(ctx, kvgh()[0])
+
+        return Member(vm=vm, get_nll=get_nll, get_nll_grad=get_nll_grad, get_nll_grad_hessian=get_nll_grad_hessian, get_grad=get_grad,
+                      nll_grad=pub_nll_grad, nll_grad_hessian=pub_nll_grad_hessian, grad=pub_grad)
 
     tags = ("M1", "M2")
     cf = model.CombineFCN(fcns=[member(t) for t in tags], gauss_constr={"b": (mu, sg)})
